@@ -203,7 +203,7 @@ _names = ["unique", "wellknown", "busname", "interface", "error", "member", "pro
 PROPS["C10"] = {
     "bounds": "every byte string of length 0..=4 (all 2^32 contents, UTF-8 checked by the real core::str::from_utf8) "
               "and every ASCII string of length 0..=6 per type; TryFrom<Value> route with ASCII strings 0..=4",
-    "outside": "strings longer than 6 bytes (incl. the 255-byte limit), GUIDs, the Deserialize route (calls the same try_from; read, not encoded)",
+    "outside": "strings longer than 6 bytes (the 255-byte limit is decided for MemberName/PropertyName only; the dotted-name parsers do not fit at 255 bytes), GUID strings other than the harnessed shapes",
     "assumptions": [
         FMT_STUB, FORGET,
         "reference recognisers in kani/names/src/refmodel.rs are the specification (validated natively against the repo's documented examples on every run)",
@@ -213,7 +213,13 @@ PROPS["C10"] = {
                   "for every byte string up to the stated length the solver proves acceptance equals an independent spec recogniser, "
                   "on every construction route harnessed. Tests sample a handful of names; here all 2^32 4-byte strings (and all 6-byte ASCII strings) are decided.",
     "level_note": "bounded (strings <= 4 bytes arbitrary, <= 6 bytes ASCII); trusts Kani/CBMC, the format! stub, and the reference recognisers (validated natively against the repo's examples each run)",
-    "groups": [{
+    "groups": [dict(ZB_INCRATE, in_crate_file="zbus_address.rs", harnesses=[
+        H("c10_guid_plain", "quick", timeout=2400, cost=120, mem_gb=20, inline_mod="guid_c10",
+          bounds="31..=33 byte strings with four fully symbolic ASCII positions (first, two inner, last), other positions fixed hex digits",
+          asserts="Guid::try_from accepts iff exactly 32 hexadecimal digits"),
+        H("c10_guid_uuid_forms", "quick", timeout=2400, cost=30, mem_gb=20, inline_mod="guid_c10",
+          bounds="hyphenated, braced and urn:uuid: forms (symbolic choice)", asserts="rejected"),
+    ]), {
         "crate": "kani/names", "selftest": True,
         "harnesses":
             [H("c10_%s_str4" % n, "quick", timeout=900, cost=70,
@@ -284,6 +290,8 @@ PROPS["PROBE11"] = {"claimed": False, "groups": [dict(ZV, harnesses=[
     H("sp1", timeout=900, mem_gb=14, recursion_bounds=REC1), H("sp2", timeout=900, mem_gb=14, recursion_bounds=REC1), H("sp3", timeout=900, mem_gb=14, recursion_bounds=REC1), H("sp4", timeout=900, mem_gb=14, recursion_bounds=REC1)])]}
 PROPS["PROBE12"] = {"claimed": False, "groups": [dict(ZB_INCRATE, in_crate_file="zbus_address.rs", harnesses=[
     H("c23_unix_path_is_decoded", timeout=1500, mem_gb=16)])]}
+PROPS["PROBE15"] = {"claimed": False, "groups": [dict(ZB_INCRATE, in_crate_file="zbus_address.rs", harnesses=[
+    H("c10_guid_plain", timeout=2400, mem_gb=20, inline_mod="guid_c10"), H("c10_guid_uuid_forms", timeout=2400, mem_gb=20, inline_mod="guid_c10")])]}
 PROPS["PROBE8"] = {"claimed": False, "groups": [dict(ZV_INCRATE, harnesses=[
     H("c07_site_de_variant", timeout=2400, mem_gb=20), H("c07_site_ser_struct", timeout=2400, mem_gb=20), H("c07_site_ser_array", timeout=2400, mem_gb=20),
     H("c07_site_de_struct", timeout=2400, mem_gb=20), H("c07_site_de_array", timeout=2400, mem_gb=20)])]}
